@@ -244,6 +244,7 @@ func (p *ClusterProp) Run(seed uint64, tier string, tr *core.Trace) (out *RunOut
 	}
 	out.NonTrivial = or.NonTrivial(e)
 	out.Digest = runDigest(e, tr)
+	reachProbes(e)
 	if ic, ok := or.(interface{ Inputs() int }); ok {
 		out.Inputs = ic.Inputs()
 	}
@@ -397,4 +398,54 @@ func runDigest(e *core.Engine, tr *core.Trace) string {
 		}
 	}
 	return fmt.Sprintf("%x", h.Sum(nil)[:12])
+}
+
+// reachProbes counts, from the reference replica's final committed state, which deep states the run
+// reached (evidence only: a probe stuck at zero over a batch means the workload must change).
+func reachProbes(e *core.Engine) {
+	ref := e.C.Ref()
+	if ref == nil || ref.App == nil || ref.Dead != "" {
+		return
+	}
+	defer func() { recover() }()
+	fam := map[string]string{
+		"propFinalized": "proposal_finalised", "propFinalizeFailed": "proposal_finalise_failed", "propFailed": "proposal_failed_or_expired",
+		"propPassed": "proposal_passed_pending", "ethsuccess_": "tracker_succeeded", "ethfailed_": "tracker_failed", "etht_": "tracker_ongoing",
+		"es__ssvk_": "validator_frozen_record", "es__ark_": "allegation_open", "deleg_p_": "undelegation_pending_entry", "delegRwz_pending_": "reward_withdrawal_pending_entry",
+		"st__m_": "stake_mature_block", "d_": "domain_record", "extBidConvSucceed": "bid_succeeded", "extBidConvExpired": "bid_expired",
+		"contracts_\x01": "contract_code", "contracts_\x02": "contract_storage_slot", "purged_": "validator_purge_record", "rwcum_withdrawn_": "validator_reward_withdrawn",
+	}
+	seen := map[string]bool{}
+	ref.App.VerifChainState().Iterate(func(k, v []byte) bool {
+		ks := string(k)
+		for pfx, name := range fam {
+			if !seen[name] && strings.HasPrefix(ks, pfx) {
+				seen[name] = true
+			}
+		}
+		return false
+	})
+	for name := range seen {
+		e.Stats.Probes["reached_"+name]++
+	}
+	for i, r := range e.C.Replicas {
+		if i == 0 {
+			continue
+		}
+		replayed := 0
+		for _, a := range r.Tr.Attempts {
+			if a.Handshake && a.Committed {
+				replayed++
+			}
+		}
+		if replayed >= 2 {
+			e.Stats.Probes["handshake_replayed_ge2_blocks"]++
+		}
+		if r.Restarts >= 2 {
+			e.Stats.Probes["replica_restarted_ge2"]++
+		}
+	}
+	if e.Stats.Faults["crash@beforeBeginBlock/replay"]+e.Stats.Faults["crash@afterBeginBlock/replay"]+e.Stats.Faults["crash@afterDeliverTx/replay"]+e.Stats.Faults["crash@beforeCommit/replay"]+e.Stats.Faults["crash@afterCommit/replay"] > 0 {
+		e.Stats.Probes["crash_during_replay"]++
+	}
 }
